@@ -210,6 +210,45 @@ func (b *readBuffer) string(n int) string {
 	return string(str)
 }
 
+const (
+	// maxUint8Len is the longest field a one octet length field can announce
+	maxUint8Len = 0xff
+	// maxUint16Len is the longest field a two octet length field can announce
+	maxUint16Len = 0xffff
+)
+
+// lengthFit pairs a field's length with the largest value its length field on the wire can carry
+type lengthFit struct {
+	name string
+	n    int
+	max  int
+}
+
+// checkLengthFits returns an error if any of the fields is too long to be announced by its length
+// field.  Encoding such a field would silently truncate the length and shift everything after it.
+func checkLengthFits(fits ...lengthFit) error {
+	for _, f := range fits {
+		if f.n > f.max {
+			return fmt.Errorf("%s is too long to encode, length [%d] exceeds the maximum of [%d]", f.name, f.n, f.max)
+		}
+	}
+	return nil
+}
+
+// checkArgsFit returns an error if there are more arguments, or longer arguments, than the one octet
+// count and length fields can announce
+func checkArgsFit(args Args) error {
+	if len(args) > maxUint8Len {
+		return fmt.Errorf("too many arguments to encode, [%d] exceeds the maximum of [%d]", len(args), maxUint8Len)
+	}
+	for _, arg := range args {
+		if arg.Len() > maxUint8Len {
+			return fmt.Errorf("argument is too long to encode, length [%d] exceeds the maximum of [%d]", arg.Len(), maxUint8Len)
+		}
+	}
+	return nil
+}
+
 // appendUint16 will append an int to a []byte as a uint16 but shifting bits
 func appendUint16(b []byte, i int) []byte {
 	return append(b, byte(i>>8), byte(i))
